@@ -454,10 +454,18 @@ Import String.   (* string literals for [str]; kept down here because String.len
 (* a non-trivial instance of the premises used above: Bitcoin (BIP-84) *)
 Example bitcoin84_default_path :
   exists c b, find_coin FBip84 (str "BITCOIN"%string) all_coins = Some c /\ c_body c = CBip b /\
+    coin_ok the_env c = true /\ addr_conf_ok the_env (b_curve b) (b_addr b) = true /\
     full_default_path FBip84 b = Ok [purpose_bip84; harden 0; harden 0; 0; 0] /\
     b_key_pub b = [4; 178; 71; 70] /\ b_wif b = Some [128] /\
     a_params (b_addr b) = APHrp (str "bc"%string).
 Proof. do 2 eexists. repeat split; vm_compute; reflexivity. Qed.
+
+Example side_conditions_examples :
+  hrp_ok (str "bc"%string) = true /\ hrp_ok (str "Bc"%string) = false /\ hrp_ok [] = false /\
+  ss58_ok 42 = true /\ ss58_ok 46 = false /\ ss58_ok 16384 = false /\
+  In (FBip44, str "ELROND"%string, str "MULTIVERSX"%string) enum_aliases /\
+  In (FBip44, str "NEO"%string, str "NEO_LEGACY"%string) enum_aliases.
+Proof. repeat split; vm_compute; auto. Qed.
 
 Example parse_path_example :
   parse_path (str "m/44'/0h/1p/2/3"%string) = Ok (true, [harden 44; harden 0; harden 1; 2; 3]) /\
